@@ -116,6 +116,8 @@ func c11KnownJSON(goccy bool, t *c11V, doc string) string {
 	switch {
 	case c11SurrogateEsc.MatchString(doc):
 		return "v3-json-escaped-surrogate-pair"
+	case strings.Contains(doc, `\/`):
+		return "v3-json-escaped-solidus"
 	case nlColon:
 		return "v3-json-line-break-between-name-and-colon"
 	case tabIndent:
